@@ -81,11 +81,16 @@ impl HotReloadingData {
         }
     }
 
-    pub fn handle_events(&mut self, events: super::Events) {
+    /// Takes events into account. Entries that no registered asset depends
+    /// on are pushed to `unknown`: the message that registers an asset may
+    /// still be queued when an event about one of its files is examined.
+    pub fn handle_events(&mut self, events: super::Events, unknown: &mut Vec<OwnedDirEntry>) {
         events.for_each(|entry| {
             if self.deps.contains(&entry) {
                 log::trace!("New event: {entry:?}");
                 self.to_reload.insert(entry);
+            } else {
+                unknown.push(entry);
             }
         });
         self.update_if_static();
@@ -121,9 +126,28 @@ impl HotReloadingData {
         }
     }
 
-    pub fn add_asset(&mut self, infos: AssetReloadInfos) {
+    /// Registers an asset. `unknown` holds the entries whose event was
+    /// examined while this message was already queued: the asset was loaded
+    /// before they changed, so it has to be reloaded if it read one of them.
+    pub fn add_asset(&mut self, infos: AssetReloadInfos, unknown: &mut Vec<OwnedDirEntry>) {
         let AssetReloadInfos(key, new_deps, typ) = infos;
+
+        let mut found = false;
+        unknown.retain(|entry| {
+            let used = new_deps.contains_entry(entry);
+            if used {
+                log::trace!("New event: {entry:?}");
+                self.to_reload.insert(entry.clone());
+                found = true;
+            }
+            !used
+        });
+
         self.deps.insert_asset(key, new_deps, typ);
+
+        if found {
+            self.update_if_static();
+        }
     }
 
     pub fn clear_local_cache(&mut self) {
